@@ -69,7 +69,7 @@ def one(name, T, z, zero_momentum, wd, hetero=False):
 
             shutil.rmtree(sub)
         os.makedirs(sub)
-        eng, conf, het_m = engines.hetero(name, sub, temperature=T)
+        eng, conf, het_m = engines.hetero(name, sub, temperature=T, int_masses=(hetero == "int"))
         return _one(name, T, z, zero_momentum, wd, eng, conf, het_m)
     kw = {}
     if name in ("lammps", "gromacs", "cp2k"):
@@ -209,7 +209,7 @@ def _job(args):
                 if not isinstance(r2, list) and r2[1] != dig:
                     bad.append(("not-reproducible", "same stream, different genvel file"))
             for clause, msg in bad:
-                out.append((f"{name}:{clause}", f"T={T} zero_momentum={zm} masses={'O,H' if het else 'H,H'} z={list(z)}: {msg}",
+                out.append((f"{name}:{clause}", f"T={T} zero_momentum={zm} masses={'16,1 (integers)' if het == 'int' else ('O,H' if het else 'H,H')} z={list(z)}: {msg}",
                             dict(name=name, T=T, zm=zm, z=list(z), het=het)))
     finally:
         scratch.rmtree(wd)
@@ -272,6 +272,9 @@ def run(ctx):
                 jobs.append((name, T, zm, zs, False))
                 if T == 300.0:
                     jobs.append((name, T, zm, zs[:: 3 if ctx.quick else 1], True))
+                    if name in ("turtlemd", "gromacs"):
+                        # the user wrote the masses as integers in the input
+                        jobs.append((name, T, zm, zs[:: 6 if ctx.quick else 2], "int"))
     with mp.get_context("fork").Pool(min(16, os.cpu_count() or 1)) as pool:
         res = pool.map(_job, jobs, chunksize=1)
     n = 0
